@@ -856,6 +856,7 @@ def rule_r2(ctx, repo):
         judge_site(ctx, repo, k, "_predict_fixed_cutoff", lambda fh: {"fh": fh, "return_pred_int": K(False)},
                    no_inline=("_predict_last_window",))
     r2_dispatch(ctx, repo, bw)
+    r2_window_horizon(ctx, repo, bw)
     r2_stored_horizon(ctx, repo)
     # model conformance: the conversions interpreted here are what callers get (no memoisation under an incomplete key)
     from .c02 import rule_decorators
@@ -1064,6 +1065,43 @@ def r2_stored_horizon(ctx, repo):
         else:
             ctx.check(all(v == req for v in seen) if all(it.is_fh(v) for v in seen) else None, "R2", cons,
                       "_predict receives the requested horizon", "_predict receives %r for the request %r" % (seen, req), loc)
+
+
+def r2_window_horizon(ctx, repo, bw):
+    """_predict_fixed_cutoff: the values come from _predict_last_window for the *same* horizon that labels them."""
+    for rel in (True, False):
+        it = PInterp(repo, no_inline=("_predict_last_window",))
+        seen = []
+
+        def hook(it_, frame, call, fname, args, kwargs, st, seen=seen):
+            r = PInterp._phook(it_, it_, frame, call, fname, args, kwargs, st)
+            if r is not NotImplemented:
+                return r
+            if astq.call_name(call) == "_predict_last_window" and isinstance(call.func, ast.Attribute) \
+                    and isinstance(it_.ev(call.func.value, st, frame), SelfV):
+                hit = repo.lookup_method(bw, "_predict_last_window")
+                b = astq.bind_call(hit[1], call, skip_self=True) if hit else None
+                names = astq.param_names(hit[1], skip_self=True) if hit else []
+                pos = dict(zip(names, args))
+                pos.update(kwargs)
+                seen.append(pos.get("fh") if b is not None else None)
+                return Opq("last-window-forecast", [pos.get("fh")])
+            return NotImplemented
+
+        it.extra_hook = hook
+        me, fh = make_self(it, bw, rel)
+        rets, raises, k, fn = run_method(it, repo, me, "_predict_fixed_cutoff", {"fh": fh, "return_pred_int": K(False)})
+        cons = "_BaseWindowForecaster._predict_fixed_cutoff[%s]:values-for-same-horizon" % ("relative" if rel else "absolute")
+        loc = ctx.loc(k.module, fn)
+        if len(seen) != 1:
+            ctx.undecided("R2", cons, "expected one call of _predict_last_window, found %d" % len(seen), loc)
+        elif it.is_fh(seen[0]):
+            ctx.check(seen[0] == fh, "R2", cons, "_predict_last_window forecasts the horizon that labels the result",
+                      "_predict_last_window forecasts %r, the result is labelled by %r" % (seen[0], fh), loc)
+        elif seen[0] is None or isinstance(seen[0], (K, Arr)) or (isinstance(seen[0], Opq) and seen[0].tag.startswith("param:")):
+            ctx.violation("R2", cons, "_predict_last_window receives %r in the horizon position" % (seen[0],), loc)
+        else:
+            ctx.undecided("R2", cons, "horizon passed to _predict_last_window not interpretable: %r" % (seen[0],), loc)
 
 
 def r2_pred_int(ctx, repo, skc, rel):
